@@ -28,10 +28,15 @@ Definition flush (p : pst) : pst :=
   | _ => mkP (batches p ++ [buf p]) [] []
   end.
 
-(* a WAL line (crc + JSON of shard name and update) is longer than 64 bytes; the model is exact for
-   limits below 64 bytes and for limits no WAL of a run reaches *)
+(* `wal.file_size() > max_wal_size_bytes`.  A WAL line (crc + JSON of shard name and update) is
+   longer than 64 bytes; the model is exact for limits below 64 bytes and for limits no WAL of a
+   run reaches.  In batched mode the lines sit in an 8 KB user-space buffer, so the FILE size stays 0
+   for the small WALs of a run and the size trigger does not fire; in async mode there is no WAL. *)
 Definition wal_over (c : pcfg) (w : list update) : bool :=
-  negb (N.eqb (max_wal c) 0) && N.ltb (max_wal c) (64 * N.of_nat (length w)).
+  match dur c with
+  | DImmediate => negb (N.eqb (max_wal c) 0) && N.ltb (max_wal c) (64 * N.of_nat (length w))
+  | _ => false
+  end.
 
 (* `append`: WAL (unless async), buffer, then buffer-full flush, else WAL-size flush_all *)
 Definition append (c : pcfg) (p : pst) (us : list update) : pst :=
